@@ -315,7 +315,34 @@ func gen(t *rapid.T) Case {
 			c.KeyIDText = full + rapid.SampledFrom([]string{"}", " }", "{}", full, "\n" + full, ",", " x", "\x00", "null", "]", "// comment", " 1"}).Draw(t, "trailer")
 		case 0:
 			c.NearMiss = "delete:" + ms[ri].Name
+			gone := ms[ri].Name
 			ms = append(ms[:ri:ri], ms[ri+1:]...)
+			// the deleted member's exact name may still occur in the text - as a string value, a principal, or a
+			// member of a nested object: it is missing all the same
+			quoted := `"` + gone + `"`
+			switch rapid.IntRange(0, 7).Draw(t, "nameElsewhere") {
+			case 0:
+				c.NearMiss += "+name-as-string-value"
+				for i := range ms {
+					if (ms[i].Name == "reqHost" || ms[i].Name == "reqUser" || ms[i].Name == "transID") && ms[i].Name != gone {
+						ms[i].Raw = quoted
+						break
+					}
+				}
+			case 1:
+				c.NearMiss += "+name-as-principal"
+				for i := range ms {
+					if ms[i].Name == "prins" {
+						ms[i].Raw = "[" + quoted + "]"
+					}
+				}
+			case 2:
+				c.NearMiss += "+name-in-nested-object"
+				ms = append(ms, vh.Member{Name: "extra", Raw: "{" + quoted + ":1}"})
+			case 3:
+				c.NearMiss += "+name-in-extra-string"
+				ms = append(ms, vh.Member{Name: "note", Raw: quoted})
+			}
 		case 1:
 			c.NearMiss = "upper:" + ms[ri].Name
 			ms[ri].Name = strings.ToUpper(ms[ri].Name)
@@ -338,7 +365,7 @@ func gen(t *rapid.T) Case {
 	return c
 }
 
-const rule = "certificates with KeyIDs built from attribute sets (16 flag combinations x touch policy {-1..4,7} x version, decorated with random transaction ids, principals, usage (one value in 24 is 1..70 KB long, one principal list in 24 has 8..1000 entries: KeyIDs beyond 4 KiB and 64 KiB), extra members, member order, JSON whitespace inside and around the object), near-miss KeyIDs (one required member deleted / upper-cased / retyped, truncated text, a complete KeyID followed by a trailer such as a brace or a second KeyID), free text and nil certificates; critical option nil-map / absent / empty / set, other critical options and look-alike names, extensions carrying the option name; certificate kind unset / user / host / undefined, serial and validity window at their extremes (no input of the type). Oracle: independently written decision table for GetType, Label = documented type name + 'SSH-' + transaction id (error for unknown), GetPrincipals suffix rules. Non-trivial: decodable KeyID with at least one flag set or the critical option present; distinct by Case hash."
+const rule = "certificates with KeyIDs built from attribute sets (16 flag combinations x touch policy {-1..4,7} x version, decorated with random transaction ids, principals, usage (one value in 24 is 1..70 KB long, one principal list in 24 has 8..1000 entries: KeyIDs beyond 4 KiB and 64 KiB), extra members, member order, JSON whitespace inside and around the object), near-miss KeyIDs (one required member deleted - in half of those with its exact name still in the text as a string value, a principal, a nested member or an extra string - / upper-cased / retyped, truncated text, a complete KeyID followed by a trailer such as a brace or a second KeyID), free text and nil certificates; critical option nil-map / absent / empty / set, other critical options and look-alike names, extensions carrying the option name; certificate kind unset / user / host / undefined, serial and validity window at their extremes (no input of the type). Oracle: independently written decision table for GetType, Label = documented type name + 'SSH-' + transaction id (error for unknown), GetPrincipals suffix rules. Non-trivial: decodable KeyID with at least one flag set or the critical option present; distinct by Case hash."
 
 func TestC19Random(t *testing.T) {
 	vh.Run(t, vh.Spec[Case]{Property: "C19", Name: "TestC19Random", Rule: rule, Gen: gen, Exec: exec})
